@@ -362,6 +362,20 @@ def check_value_dispatch(run: Run) -> None:
                             explicit.add(x.attr)
             nxt = cur.orelse
             cur = nxt[0] if len(nxt) == 1 and isinstance(nxt[0], ast.If) else None
+    # ... a branch may also be selected through a module-level table keyed by token kinds: `TABLE.get(token.type)`,
+    # `token.type in TABLE`, `TABLE[token.type]` at the top level of the function: its keys are explicit branches
+    for n in walk_no_nested(fi.node):
+        tbl = None
+        if isinstance(n, ast.Call) and isinstance(n.func, ast.Attribute) and n.func.attr == "get" and isinstance(n.func.value, ast.Name) and n.args and _text(n.args[0]) in ("token.type", "self.current().type"):
+            tbl = n.func.value.id
+        elif isinstance(n, ast.Compare) and len(n.ops) == 1 and isinstance(n.ops[0], ast.In) and _text(n.left) in ("token.type", "self.current().type") and isinstance(n.comparators[0], ast.Name):
+            tbl = n.comparators[0].id
+        elif isinstance(n, ast.Subscript) and isinstance(n.value, ast.Name) and _text(n.slice) in ("token.type", "self.current().type"):
+            tbl = n.value.id
+        if tbl and pm.has_const(tbl):
+            t = pm.const_node(tbl)
+            if isinstance(t, ast.Dict):
+                explicit |= {k.attr for k in t.keys if isinstance(k, ast.Attribute) and isinstance(k.value, ast.Name) and k.value.id == "TokenType"}
     # structural tokens must not be consumed as a value by the catch-all
     ch = Chain(p, pm, {"token.type", "self.current().type"}, set(), {})
     top = [st for st in fi.node.body if isinstance(st, ast.If)]  # type: ignore[attr-defined]
